@@ -56,6 +56,17 @@ def gen_values(salt, call, nelem, size, is_float):
     special = (h >> np.uint64(60)) == 0
     sel = ((h >> np.uint64(56)) & np.uint64(7)).astype(np.int64)
     v = np.where(special, pats[sel], v)
+    # value mode in bits 40-42 of the salt: 0 pseudo-random with special patterns (above), 1 all zeros, 2 one constant per
+    # call, 3 the documented fill pattern (quiet NaN / most negative), 4 a ramp
+    vmode = (salt >> 40) & 7
+    if vmode == 1:
+        v = np.zeros(nelem, dtype=np.uint64)
+    elif vmode == 2:
+        v = np.full(nelem, v[0] if nelem else 0, dtype=np.uint64)
+    elif vmode == 3:
+        v = np.full(nelem, nan if is_float else top, dtype=np.uint64)
+    elif vmode == 4:
+        v = (e + np.uint64(call)) & np.uint64(mask)
     return v
 
 
